@@ -11,7 +11,11 @@ SPEC = {
             'discarded generator). Atomicity probe: the operation is re-run on a copy of the volume and at every release of the '
             'exclusive lock inside it another thread reads the whole tree, which must be the tree before or after the '
             'operation (or after the open of an open-then-write composite); always run when the stores of an operation are '
-            'spread over more than one exclusive section. Thorough adds 2-4 real threads on disjoint sub-trees of one volume, compared with the '
+            'spread over more than one exclusive section. Generator-window probe: iterdir / glob / rglob listings are consumed '
+            'item by item while another thread tries to rename a listed file into a directory not yet visited; the listing must '
+            'be the one before or after the rename. Upgrade-window probe: if an operation asks for the write side while holding '
+            'only the read side, a conflicting operation of another thread is queued at that moment and outcomes and final tree '
+            'must be those of a serial order. Thorough adds 2-4 real threads on disjoint sub-trees of one volume, compared with the '
             'serial result. Non-trivial = operation with at least one byte change; distinct = distinct (history, operation).',
     'trusted_base': [
         'Coq 8.16.1 kernel; theorems closed under the global context',
